@@ -130,8 +130,9 @@ func (cj *CookieJar) Set(uri *fasthttp.URI, cookies ...*fasthttp.Cookie) {
 //
 // CookieJar stores copies of the provided cookies, so they may be safely released after use.
 func (cj *CookieJar) SetByHost(host []byte, cookies ...*fasthttp.Cookie) {
-	host = hostWithoutPort(host)
-	hostStr := utils.UnsafeString(host)
+	// The key is always a copy: assigning to an existing string key replaces the stored key,
+	// which must never point into the caller's (pooled) buffer.
+	hostStr := string(hostWithoutPort(host))
 
 	cj.mu.Lock()
 	defer cj.mu.Unlock()
@@ -140,11 +141,7 @@ func (cj *CookieJar) SetByHost(host []byte, cookies ...*fasthttp.Cookie) {
 		cj.hostCookies = make(map[string][]*fasthttp.Cookie)
 	}
 
-	hostCookies, ok := cj.hostCookies[hostStr]
-	if !ok {
-		// If the key does not exist in the map, make a copy to avoid unsafe usage.
-		hostStr = string(host)
-	}
+	hostCookies := cj.hostCookies[hostStr]
 
 	for _, cookie := range cookies {
 		existing := searchCookieByKeyAndPath(cookie.Key(), cookie.Path(), hostCookies)
@@ -191,8 +188,9 @@ func (cj *CookieJar) dumpCookiesToReq(req *fasthttp.Request) {
 
 // parseCookiesFromResp parses the cookies from the response and stores them for the specified host and path.
 func (cj *CookieJar) parseCookiesFromResp(host, path []byte, resp *fasthttp.Response) {
-	host = hostWithoutPort(host)
-	hostStr := utils.UnsafeString(host)
+	// The key is always a copy: assigning to an existing string key replaces the stored key,
+	// which must never point into the request's (pooled) buffer.
+	hostStr := string(hostWithoutPort(host))
 
 	cj.mu.Lock()
 	defer cj.mu.Unlock()
@@ -201,11 +199,7 @@ func (cj *CookieJar) parseCookiesFromResp(host, path []byte, resp *fasthttp.Resp
 		cj.hostCookies = make(map[string][]*fasthttp.Cookie)
 	}
 
-	cookies, ok := cj.hostCookies[hostStr]
-	if !ok {
-		// If the key does not exist in the map, make a copy to avoid unsafe usage.
-		hostStr = string(host)
-	}
+	cookies := cj.hostCookies[hostStr]
 
 	now := time.Now()
 	resp.Header.VisitAllCookie(func(_, value []byte) {
